@@ -196,6 +196,29 @@ def check_tree(ctx, drv, desc, origin, use_gcc, expect=None):
                 if m.get("wf") and not m.get("spec_agrees"):
                     # contradicts the theorem include_semantics_find_checked: the driver is not running what was proved
                     ctx.corr_break("findinc: model != Lean reference although wf", case, "theorem", m.get("spec_agrees"))
+                # the engine tie (Props/C04Engines.lean): the engine of ops c08find / c10find on the same request
+                eq = dict(G.model_request(root, real, desc["links"]), op="engines")
+                em = drv.ask(eq)
+                if "eng_ok" not in em:
+                    ctx.corr_break("engines", case, "reply", em)
+                else:
+                    ctx.dist["engines_requests"] += 1
+                    ctx.dist["engines_side_condition_EngOK"] += 1 if em["eng_ok"] else 0
+                    for k2 in ("no_links", "cfam", "no_forced", "both_ok", "agree"):
+                        ctx.dist[f"engines_{k2}"] += 1 if em[k2] else 0
+                    if em["eng_ok"] and em["both_ok"]:
+                        ctx.dist["engines_theorem_applies"] += 1
+                        ctx.dist["engines_triples_compared"] += em["x_triples"]
+                        if not em["agree"]:
+                            # contradicts C04.engines_agree_checked: the driver is not running what was proved
+                            ctx.corr_break("engines: Exclude engine != Inc.find although EngOK and both runs succeed", case,
+                                           "theorem", em)
+                    elif em["both_ok"]:
+                        ctx.dist["engines_agree_outside_side_condition"] += 1 if em["agree"] else 0
+                        if not em["agree"]:
+                            # measured, not an alarm: `Exclude.sem` has no symbolic links (its file system is a map from real paths)
+                            ctx.dist["engines_differ_with_links" if not em["no_links"] else "engines_differ_without_links"] += 1
+                    out["engines"] = {k2: em[k2] for k2 in ("eng_ok", "both_ok", "agree", "x_triples", "i_triples", "x_exc", "i_exc")}
                 # the memo: the observed history of look-ups through the memo model and the memo-free rule
                 for k, e in enumerate(desc["entries"]):
                     hist = [x for x in real["lookups"] if x[0] == f"p{k}"]
